@@ -7,6 +7,7 @@ import (
 	"regexp"
 	"sort"
 	"strings"
+	"sync"
 
 	openfgav1 "github.com/openfga/api/proto/openfga/v1"
 	"github.com/openfga/language/pkg/go/transformer"
@@ -272,6 +273,42 @@ func checkCanonical1(run *core.Run, m *openfgav1.AuthorizationModel, r *rand.Ran
 	}
 	if modular {
 		run.Count("modular_models", 1)
+		// 3a. repeated calls that overlap: goroutines render one fresh copy at the same moment (first thing done
+		// with that copy), every output must be the sequential one
+		if len(m.GetTypeDefinitions()) >= 3 && r.Intn(3) == 0 {
+			shared := clone()
+			r.Shuffle(len(shared.TypeDefinitions), func(a, b int) {
+				shared.TypeDefinitions[a], shared.TypeDefinitions[b] = shared.TypeDefinitions[b], shared.TypeDefinitions[a]
+			})
+			const G = 6
+			outs := make([]string, G)
+			var start, done sync.WaitGroup
+			start.Add(1)
+			for g := 0; g < G; g++ {
+				done.Add(1)
+				go func(g int) {
+					defer done.Done()
+					defer func() {
+						if x := recover(); x != nil {
+							outs[g] = fmt.Sprint("panic: ", x)
+						}
+					}()
+					start.Wait()
+					o, e := transformer.TransformJSONProtoToDSL(shared)
+					outs[g] = o + fmt.Sprint(e)
+				}(g)
+			}
+			start.Done()
+			done.Wait()
+			run.Eval(G)
+			run.Count("overlapping_renders_of_one_model", G)
+			for _, o := range outs {
+				if o != plain+"<nil>" {
+					run.Violation("output-differs-between-overlapping-calls", c, plain, o)
+					return
+				}
+			}
+		}
 		for k := 0; k < 3; k++ {
 			pm := clone()
 			r.Shuffle(len(pm.TypeDefinitions), func(a, b int) {
